@@ -267,6 +267,22 @@ func (o *Orch) parseOut(path string, sh int) (complete bool, lastCase string, la
 		return false, "", -1
 	}
 	defer f.Close()
+	var lastStat *line
+	var l2 line
+	defer func() {
+		// stat lines are cumulative per attempt: the last one counts
+		if lastStat != nil {
+			o.mu.Lock()
+			for k, v := range lastStat.Counters {
+				o.Counters[k] += v
+			}
+			o.Evals += lastStat.Evals
+			if len(o.Samples) < 6 {
+				o.Samples = append(o.Samples, lastStat.Samples...)
+			}
+			o.mu.Unlock()
+		}
+	}()
 	rd := bufio.NewReaderSize(f, 1<<20)
 	for {
 		b, err := rd.ReadBytes('\n')
@@ -284,15 +300,8 @@ func (o *Orch) parseOut(path string, sh int) (complete bool, lastCase string, la
 				case "inconclusive":
 					o.AddInconclusive(l.Msg)
 				case "stat":
-					o.mu.Lock()
-					for k, v := range l.Counters {
-						o.Counters[k] += v
-					}
-					o.Evals += l.Evals
-					if len(o.Samples) < 6 {
-						o.Samples = append(o.Samples, l.Samples...)
-					}
-					o.mu.Unlock()
+					lastStat = &l2
+					*lastStat = l
 				case "done":
 					complete = true
 				}
